@@ -589,8 +589,11 @@ fn psbt_strat() -> BoxedStrategy<Psbt> {
         pvec(inspec_strat(), 0..=3),
         pvec((txout_strat(), opt_script(), opt_script(), derivs_strat()), 0..=3),
         prop_oneof![5 => Just(None), 1 => (pvec(any::<u8>(), 0..=8), pvec(any::<u8>(), 0..=20)).prop_map(Some)],
+        // size padding (one large unknown global entry): PSBTs around and beyond 64 KiB, still
+        // well inside the 128 KiB message limit
+        prop_oneof![30 => Just(0usize), 1 => 65_300usize..65_700, 1 => 70_000usize..100_000],
     )
-        .prop_map(|(ver, lt, ins, outs, gunknown)| {
+        .prop_map(|(ver, lt, ins, outs, gunknown, pad)| {
             let mut txins = vec![];
             let mut inputs = vec![];
             for s in ins.iter() {
@@ -638,6 +641,9 @@ fn psbt_strat() -> BoxedStrategy<Psbt> {
             let mut unknown = BTreeMap::new();
             if let Some((k, val)) = gunknown {
                 unknown.insert(bitcoin::psbt::raw::Key { type_value: 0xdd, key: k }, val);
+            }
+            if pad > 0 {
+                unknown.insert(bitcoin::psbt::raw::Key { type_value: 0xde, key: vec![0x70, 0x61, 0x64] }, vec![0xab; pad]);
             }
             Psbt {
                 unsigned_tx: Transaction {
